@@ -661,6 +661,8 @@ theorem pinv_cancelAllFor {w : World} (h : PInv w) (z : Pid) : PInv (cancelAllFo
   h.of_same (fun pl => ph_congr (by simp) pl) (fun q pl hm => by simpa using hm)
 theorem pinv_cancelKindFor {w : World} (h : PInv w) (z : Pid) (act : Nat) (sig : Option Int) : PInv ((cancelKindFor w z act sig).1) :=
   h.of_same (fun pl => ph_congr (by simp) pl) (fun q pl hm => by simpa using hm)
+theorem pinv_cancelUserAll {w : World} (h : PInv w) : PInv ((cancelUserAll w).1) :=
+  h.of_same (fun pl => ph_congr (by simp) pl) (fun q pl hm => by simpa using hm)
 theorem pinv_recordRes {w : World} (h : PInv w) (r : Nat) : PInv (recordRes w r) :=
   h.of_same (fun pl => ph_congr (by simp) pl) (fun q pl hm => by simpa using hm)
 theorem pinv_recordBuf {w : World} (h : PInv w) (r : Nat) : PInv (recordBuf w r) :=
@@ -756,6 +758,7 @@ macro_rules
               | apply pinv_wakeEventWaiters
               | apply pinv_evCancel
               | apply pinv_cancelAllFor
+              | apply pinv_cancelUserAll
               | apply pinv_cancelKindFor
               | apply pinv_recordRes
               | apply pinv_recordBuf
